@@ -47,10 +47,10 @@ EXC = [("ValueError", "boom"), ("RuntimeError", "bad state")]
 CODECS = [None, "zstd", "gzip"]
 
 
-def _gen_method(rng: random.Random, idx: int) -> dict[str, Any]:
+def _gen_method(rng: random.Random, idx: int, small: bool = False) -> dict[str, Any]:
     from lib import svcgen
 
-    n = rng.choice([1, 2, 3, 4, 5, 6, 8, 12])
+    n = rng.choice([2, 3, 4, 5, 6] if small else [1, 2, 3, 4, 5, 6, 8, 12])
     term = rng.choice([None, None, "finish", "emit_finish", "raise"])
     cols = rng.choice(COLSETS)
     steps: list[dict[str, Any]] = []
@@ -60,8 +60,8 @@ def _gen_method(rng: random.Random, idx: int) -> dict[str, Any]:
         st: dict[str, Any] = {
             "logs": svcgen.gen_logs(rng, 2) if rng.random() < 0.3 else [],
             "act": "emit_finish" if (last and term == "emit_finish") else "emit",
-            "rows": rng.choice([0, 1, 1, 2, 5, 40]),
-            "pad": rng.choice([0, 0, 50, 400, 3000]),
+            "rows": rng.choice([0, 1, 1, 2] if small else [0, 1, 1, 2, 5, 40]),
+            "pad": rng.choice([0, 0, 50] if small else [0, 0, 50, 400, 3000]),
         }
         if rng.random() < 0.2:
             st["meta"] = {"k": rng.choice(["v", "x" * 30])}
@@ -99,6 +99,9 @@ def _iterate(sess: Any) -> list[list[Any]]:
     try:
         for ab in sess:
             ev.append(["batch", streams.norm_rb(ab.batch, ab.custom_metadata)])
+            if len(ev) > 80:  # scripts have <= 12 steps: a stream this long is not converging
+                ev.append(["runaway"])
+                return ev
         ev.append(["end"])
     except RpcError as e:
         ev.append(["error", e.error_type, e.error_message])
@@ -354,8 +357,8 @@ def _run_script(chk: Check, m: dict[str, Any], job: dict[str, Any], rng: random.
                         if c not in seen_caps and later_round_budget > 0 and c >= 1:
                             queue.append(c)
                             later_round_budget -= 1
-        if chk.rng.random() < 0.0005:
-            chk.sample({"script": _slim(m), "cap": cap, "reference": _brief(ref)})
+        if len(chk.samples) < 2 and cap not in (None, 1, 10**9):
+            chk.sample({"script": _slim(m), "cap": cap, "reference": _brief(ref), "turn_body_bytes(last codec)": [len(t["raw"]) for t in turns][:12]})
 
     # ---- resumption -------------------------------------------------------------------
     if nb == 0:
@@ -478,9 +481,9 @@ def run_shard(job: dict[str, Any]) -> dict[str, Any]:
     stats = {"turns": 0, "max_raw_body": 0, "max_overshoot": 0}
     for si in range(job["index"], job["nscripts"], job["n"]):
         rng = random.Random(f"C11:{job['seed']}:script:{si}")
-        m = _gen_method(rng, si)
         sub = dict(job)
         sub["all_caps"] = si < job["all_caps_scripts"]
+        m = _gen_method(rng, si, small=sub["all_caps"])
         try:
             _run_script(chk, m, sub, rng, stats)
         except Exception as exc:  # noqa: BLE001
@@ -523,8 +526,8 @@ def main(tier: str, seed: int) -> int:
         "tier": tier,
         "seed": seed,
         "n": n,
-        "nscripts": 40 if quick else 420,
-        "all_caps_scripts": 0 if quick else 50,
+        "nscripts": 40 if quick else 200,
+        "all_caps_scripts": 0 if quick else 16,
         "later_caps": 6 if quick else 20,
         "a_cfgs": [{"tag": "A_nocap", "kw": {}}, {"tag": "A_cap1_nocache", "kw": {"max_response_bytes": 1, "call_state_cache_entries": 0}}],
         "b_cfgs": [
